@@ -32,6 +32,7 @@ def run(ctx):
                   "a frame is removed from the frame list by %s in %s after it was stamped: its sequence number is consumed but never emitted, so the "
                   "reported counter is ahead of the last emitted frame and the next frame skips a number" % (kind.split(":")[-1], wf.name))
     E.rule_counter_survives_encode(res, "C09-R1", m)
+    E.rule_puts_are_flushed(res, "C09-R1", m)  # a frame that took a counter is emitted: no return between putPacket and the finisher
     E.rule_identity(res, "C09-R3", m)
     E.rule_type_change_rebuilds_template(res, "C09-R4", m)
     E.rule_type_change_opens_frame(res, "C09-R4", m)
